@@ -83,6 +83,22 @@ def run_cvc5(smt2, timeout_s):
         os.unlink(path)
 
 
+def run_z3_old(smt2, timeout_s):
+    with tempfile.NamedTemporaryFile("w", suffix=".smt2", delete=False) as f:
+        f.write(smt2 + "\n(check-sat)\n")
+        path = f.name
+    try:
+        r = subprocess.run(["/usr/bin/z3", f"-T:{int(timeout_s)}", path], capture_output=True, text=True, timeout=timeout_s + 5)
+        out = r.stdout.strip().splitlines()
+        return out[0] if out and out[0] in ("sat", "unsat") else "unknown"
+    except Exception:
+        return "unknown"
+    finally:
+        import os
+
+        os.unlink(path)
+
+
 def expand_quantifiers(f, scope):
     """replace every single-Int-variable quantifier by its instances at -1..scope
     (used only to *search* for candidate counterexamples, never to discharge)"""
@@ -122,6 +138,12 @@ def discharge(pc, goal, timeout_s=10.0, len_consts=()):
             return "refuted", "z3", time.time() - t0, s.model()
         return "unknown", "z3", time.time() - t0, None
     goal = lift(goal)
+    # fast lane: E-matching only (no MBQI) — decides most valid VCs in milliseconds
+    s_q = _smt2(pc, goal)
+    s_q.set("timeout", int(min(timeout_s, 5.0) * 1000))
+    s_q.set("smt.mbqi", False)
+    if s_q.check() == z3.unsat:
+        return "discharged", "z3(ematching)", time.time() - t0, None
     s = _smt2(pc, goal)
     s.set("timeout", int(timeout_s * 1000))
     r = s.check()
@@ -129,16 +151,30 @@ def discharge(pc, goal, timeout_s=10.0, len_consts=()):
         return "discharged", "z3", time.time() - t0, None
     if r == z3.sat:
         return "refuted", "z3", time.time() - t0, s.model()
-    # z3 gave up: try cvc5 on the same query
+    # z3 gave up: retry on the cone of influence of the goal (fewer quantified premises)
+    sliced = EN.cone_of_influence(pc, goal)
+    if len(sliced) < len([p for p in pc if p is not True]):
+        for mbqi in (False, True):
+            s_e = _smt2(sliced, goal)
+            s_e.set("timeout", int(timeout_s * 1000))
+            s_e.set("smt.mbqi", mbqi)
+            if s_e.check() == z3.unsat:
+                return "discharged", "z3(sliced)", time.time() - t0, None
+    # then the other installed solvers on the same query: z3 4.8.12 (different quantifier
+    # heuristics than the 5.1 wheel) and cvc5
     try:
-        txt = s.to_smt2().replace("(check-sat)", "")
-        r2 = run_cvc5(txt, timeout_s)
+        txt = _smt2(pc, goal).to_smt2().replace("(check-sat)", "")
     except Exception:
-        r2 = "unknown"
-    if r2 == "unsat":
-        return "discharged", "cvc5", time.time() - t0, None
-    if r2 == "sat":
-        return "refuted", "cvc5", time.time() - t0, None
+        txt = None
+    if txt is not None:
+        r1 = run_z3_old(txt, timeout_s)
+        if r1 == "unsat":
+            return "discharged", "z3-4.8.12", time.time() - t0, None
+        r2 = run_cvc5(txt, timeout_s)
+        if r2 == "unsat":
+            return "discharged", "cvc5", time.time() - t0, None
+        if r2 == "sat" or r1 == "sat":
+            return "refuted", "cvc5" if r2 == "sat" else "z3-4.8.12", time.time() - t0, None
     # Both solvers gave up on the unbounded query (typically: the goal is false and the
     # quantified premises defeat model construction).  Search for a *candidate*
     # counterexample in a small scope with the range-guarded quantifiers expanded.  The
